@@ -245,6 +245,24 @@ def run_case(case):
         for gi, ti in g2t.items():
             if ti >= len(small_lists) or gi not in small_lists[ti]:
                 bad("views-consistent", f"gndx_to_tree[{gi}]={ti} but tree lists {small_lists}", hist, ["gndx_to_tree"])
+        # positions are copied back to molecules exactly as stored
+        class _Mol:
+            def __init__(self, keys):
+                self.nodes = {k: {} for k in keys}
+        mol_ids = sorted({m for m, _, _ in nodes})
+        dummy = {m: _Mol([k for mm, k, _ in nodes if mm == m]) for m in mol_ids}
+        try:
+            # molecules are addressed by their position in the list: build a list long enough for the highest index
+            lst = [dummy.get(i, _Mol([])) for i in range(max(mol_ids) + 1)]
+            eng.update_positions_in_molecules(lst)
+            for i, (m, k, _) in enumerate(nodes):
+                got = lst[m].nodes[k].get("position")
+                if i in model and (got is None or not np.array_equal(got, model[i])):
+                    bad("positions-copied-back", f"node {(m, k)}: {got} expected {model[i]}", hist)
+                if i not in model and got is not None and not np.all(np.isinf(got)):
+                    bad("positions-copied-back", f"node {(m, k)}: {got} expected undefined", hist)
+        except Exception as exc:  # noqa
+            bad("positions-copied-back", f"{type(exc).__name__}: {exc}", hist, ["exc:" + type(exc).__name__])
         if len(eng.position_trees) != len(eng.defined_idxs):
             bad("views-consistent", "number of trees != number of index lists", hist)
         for tree, lst in zip(eng.position_trees, eng.defined_idxs):
